@@ -117,6 +117,26 @@ def header(classes):
           "  MAKE_SEQ(get_notes, get_num_notes, get_note);\n  MAKE_SEQ_PROPERTY(notes, get_num_notes, get_note, set_note);\n"
           "private:\n  std::map<std::string, int> _stock;\n  std::vector<std::string> _notes;\n};\n")
     h += "BEGIN_PUBLISH\nint tag_n(const Tag &t);\nEND_PUBLISH\n"
+    # overloads on classes of a hierarchy whose longest chain runs through a second base; overloads with several trailing defaults
+    h += ("class Animal {\nPUBLISHED:\n  Animal() {}\n  virtual ~Animal() {}\n  int legs() const { return 4; }\n};\n"
+          "class Striped {\nPUBLISHED:\n  Striped() {}\n  virtual ~Striped() {}\n};\n"
+          "class Mammal : public Animal {\nPUBLISHED:\n  Mammal() {}\n};\n"
+          "class Horse : public Mammal {\nPUBLISHED:\n  Horse() {}\n};\n"
+          "class Zebra : public Striped, public Mammal {\nPUBLISHED:\n  Zebra() {}\n};\n"
+          "class Okapi : public Striped, public Animal {\nPUBLISHED:\n  Okapi() {}\n};\n"
+          "class Keeper {\nPUBLISHED:\n  Keeper() : _fed(0) {}\n"
+          "  int describe(const Animal &a) const { return 1; }\n  int describe(const Mammal &a) const { return 2; }\n  int describe(const Zebra &a) const { return 3; }\n"
+          "  int greet(const Animal &a) const { return 10; }\n  int greet(const Okapi &a) const { return 30; }\n"
+          "  static int rank(const Animal &a) { return 100; }\n  static int rank(const Zebra &a) { return 300; }\n"
+          "  void feed(const Animal &a) { _fed += 1; }\n  void feed(const Zebra &a) { _fed += 1000; }\n  int get_fed() const { return _fed; }\n"
+          "public:\n  int _fed;\n};\n"
+          "class Mixer {\nPUBLISHED:\n  Mixer() : _level(0), _calls(0) {}\n"
+          "  int fade(int target, int steps = 10, int curve = 1) { _level = target * 100 + steps * 10 + curve; ++_calls; return _level; }\n"
+          "  int fade(const std::string &channel, int target) { _level = -((int)channel.size() * 10 + target); ++_calls; return _level; }\n"
+          "  int pan(int a, int b = 3) { ++_calls; return a * 10 + b; }\n  int pan(const std::string &s, int a, int b) { ++_calls; return (int)s.size() * 100 + a * 10 + b; }\n"
+          "  static int route(int a, int b = 5, int c = 6) { return a * 100 + b * 10 + c; }\n  static int route(const Mixer &m, int b) { return -(m._calls * 10 + b); }\n"
+          "  int get_level() const { return _level; }\n  int get_calls() const { return _calls; }\n"
+          "public:\n  int _level;\n  int _calls;\n};\n")
     h += "BEGIN_PUBLISH\nenum GlobalMode { GM_on = 1, GM_off = 2 };\nint gmode(GlobalMode m);\nint count_live();\n" + "".join("int takes_%s(const %s &o);\n" % (c.name.lower(), c.name) for c in classes) + "END_PUBLISH\n#endif\n"
     impl = '#include "t.h"\nint g_live = 0;\nint count_live() { return g_live; }\nint gmode(GlobalMode m) { return (int)m * 3; }\nint tag_n(const Tag &t) { return t.get_n(); }\n' + "".join("const int %s::limit_%s;\n" % (c.name, c.name.lower()) for c in classes) + "".join("int takes_%s(const %s &o) { return o.who(); }\n" % (c.name.lower(), c.name) for c in classes)
     return h, impl
@@ -275,6 +295,20 @@ def test_script(classes, rng, modname="tmod"):
           "ok = m.count_live() == base + 2 and list(view) == ['gear']",
           "del view; gc.collect(); chk('dropping the view releases the object exactly once', ok and m.count_live() == base + 1, (m.count_live(), base))",
           "del pins, inv; gc.collect(); chk('Inv no leak, no double free', m.count_live() == base, (m.count_live(), base))", ""]
+    L += ["k = m.Keeper()",
+          "chk('overload chosen for the most derived class (longest chain through the second base)', (k.describe(m.Animal()), k.describe(m.Mammal()), k.describe(m.Horse()), k.describe(m.Zebra()), k.describe(m.Okapi())) == (1, 2, 2, 3, 1), "
+          "(k.describe(m.Animal()), k.describe(m.Mammal()), k.describe(m.Horse()), k.describe(m.Zebra()), k.describe(m.Okapi())))",
+          "chk('overload on a class with two bases', (k.greet(m.Okapi()), k.greet(m.Zebra()), k.greet(m.Animal())) == (30, 10, 10), (k.greet(m.Okapi()), k.greet(m.Zebra()), k.greet(m.Animal())))",
+          "chk('static overload on the hierarchy', (m.Keeper.rank(m.Zebra()), m.Keeper.rank(m.Horse())) == (300, 100), (m.Keeper.rank(m.Zebra()), m.Keeper.rank(m.Horse())))",
+          "k.feed(m.Zebra()); k.feed(m.Horse()); chk('void overload on the hierarchy', k.get_fed() == 1001, k.get_fed())",
+          "x = m.Mixer()",
+          "chk('overloads with several trailing defaults', (x.fade(3), x.fade(3, 4), x.fade(3, 4, 5), x.fade('left', 7)) == (3 * 100 + 101, 3 * 100 + 41, 345, -47))",
+          "chk('the middle-arity overload exists', raises(TypeError, x.fade, 'left', 7) is False and x.get_level() == -47, (x.get_level(), x.get_calls()))",
+          "chk('keywords select the overload', x.fade(channel='aux', target=2) == -32 and x.fade(target=1, steps=2) == 121)",
+          "chk('pan overloads', (x.pan(1), x.pan(1, 2), x.pan('ab', 1, 2)) == (13, 12, 212))",
+          "chk('static overloads with defaults', (m.Mixer.route(1), m.Mixer.route(1, 2), m.Mixer.route(1, 2, 3), m.Mixer.route(x, 2)) == (156, 126, 123, -(x.get_calls() * 10 + 2)), (m.Mixer.route(1), m.Mixer.route(1, 2), m.Mixer.route(x, 2)))",
+          "chk('no overload takes these', raises(TypeError, x.fade) is True and raises(TypeError, x.fade, 'left') is True and raises(TypeError, x.fade, 1, 2, 3, 4) is True)",
+          "del k, x", ""]
     L.append("chk('module-level enum and function', m.GM_on == 1 and m.GMOff == 2 and m.gmode(m.GM_off) == 6 and raises(TypeError, m.gmode, 'x') is True)")
     L.append("print('checks=%d failures=%d' % (checks, len(fails)))")
     L.append("sys.exit(1 if fails else 0)")
